@@ -103,6 +103,7 @@ static int body(void)
         else {
             VF_AP(5, num_grammar(buf + off, tl, '.'), "C05 emitted text is an RFC 8259 number with '.' as decimal point");
             VF_AP(4, fabs(val) <= DBL_MAX && fabs(val - d) <= (fabs(val) > fabs(d) ? fabs(val) : fabs(d)) * DBL_EPSILON, "C04 the emitted text denotes d within one part in 2^52");
+            VF_AP(5, fabs(val) <= DBL_MAX && fabs(val - d) <= (fabs(val) > fabs(d) ? fabs(val) : fabs(d)) * DBL_EPSILON, "C05 the emitted text decodes to the same number (to the precision the library promises: one part in 2^52)");
             if (fabs(d) < 1e15 && d == floor(d) && (IN.wf & 1)) VF_AP(4, val == d, "C04 integers of magnitude below 1e15 are printed exactly");
             intvalued = (IN.wf & 1) && d == floor(d) && d >= (double)INT_MIN && d <= (double)INT_MAX;
             if (intvalued) { for (k = 0; k < tl; k++) VF_AP(5, dig(buf[off + k]) || (k == 0 && buf[off] == '-'), "C05 integer valued numbers in the int range are plain decimal integers"); VF_WITNESS("int"); }
